@@ -1,12 +1,19 @@
 #!/venv/bin/python
 """Run every claimed quick check against behaviour-preserving patches; any VIOLATION / ANALYSIS-ERROR is a false alarm.
-usage: eval_benign.py [root=/verif/benign]"""
+usage: eval_benign.py [root=/verif/benign] [--only B7-1,B7-3]"""
 import glob, json, os, shutil, subprocess, sys, tempfile
 from concurrent.futures import ThreadPoolExecutor
+only = None
+if "--only" in sys.argv:
+    i = sys.argv.index("--only")
+    only = sys.argv[i + 1].split(",")
+    del sys.argv[i : i + 2]
 root = sys.argv[1] if len(sys.argv) > 1 else "/verif/benign"
 verif = os.path.dirname(os.path.dirname(os.path.abspath(__file__)))
 claimed = [c["property_id"] for c in json.load(open(os.path.join(verif, "MANIFEST.json")))["checks"]]
 seeds = sorted(os.path.dirname(p) for p in glob.glob(os.path.join(root, "**", "patch.diff"), recursive=True))
+if only:
+    seeds = [s for s in seeds if os.path.basename(s) in only]
 def one(sd):
     rel = os.path.relpath(sd, root)
     scratch = tempfile.mkdtemp(prefix="benigneval_")
